@@ -313,6 +313,74 @@ def string_main_scenario(ki):
         shutil.rmtree(tmp, ignore_errors=True)
 
 
+def caller_repository_scenario(ki, global_repo):
+    """the repository that receives the models belongs to the caller (GlobalRepo.load_models_in_model_repo(
+    global_model_repo=repo), languages found through the registry): after a failing load it holds nothing of
+    that load, and after the repair the same repository is filled correctly"""
+    from textx import metamodel_from_str
+    import textx.registration as REG
+    from textx.scoping import GlobalModelRepository
+    import textx.scoping.providers as P
+    import shutil
+    kind = KINDS[ki]
+    if kind in ('missing-import', 'model-processor'):
+        return []
+    tmp = tempfile.mkdtemp(prefix='c18c_')
+    problems = []
+    try:
+        good = {'a.c18': 'item a1 -> z1', 'z.c18': 'item z1 item z2 -> z1'}
+        bad = {'syntax': 'item z1 item %', 'unknown-reference': 'item z1 item z2 -> nowhere',
+               'object-processor': 'item z1 item z2 ! boom'}[kind]
+        for fn, t in good.items():
+            with open(os.path.join(tmp, fn), 'w') as f:
+                f.write(t)
+        with open(os.path.join(tmp, 'z.c18'), 'w') as f:
+            f.write(bad)
+        mm = metamodel_from_str(GRAMMAR, global_repository=global_repo)
+        prov = P.PlainNameGlobalRepo(os.path.join(tmp, '*.c18'))
+        mm.register_scope_providers({'*.*': prov})
+
+        def item_proc(it):
+            if it.boom:
+                raise ValueError('object processor rejects %s' % it.name)
+        mm.register_obj_processors({'Item': item_proc})
+        REG.clear_language_registrations()
+        REG.register_language(REG.LanguageDesc('c18lang', pattern='*.c18', description='', metamodel=mm))
+        repo = GlobalModelRepository()
+
+        def names(r):
+            return sorted(os.path.basename(k) for k in r.filename_to_model)
+        try:
+            prov.load_models_in_model_repo(global_model_repo=repo)
+            return ['harness: the broken closure loads']
+        except Exception:  # noqa
+            pass
+        if names(repo.all_models) or names(repo.local_models):
+            problems.append("the caller's repository after the failing load holds all_models=%s local_models=%s" % (
+                names(repo.all_models), names(repo.local_models)))
+        if global_repo and names(mm._tx_model_repository.all_models):
+            problems.append("the metamodel's repository after the failing load holds %s" % names(mm._tx_model_repository.all_models))
+        with open(os.path.join(tmp, 'z.c18'), 'w') as f:
+            f.write(good['z.c18'])
+        try:
+            prov.load_models_in_model_repo(global_model_repo=repo)
+        except BaseException as e:  # noqa
+            problems.append('after the repair the load into the same repository fails: %s: %s' % (type(e).__name__, str(e)[:80]))
+            return problems
+        if names(repo.all_models) != ['a.c18', 'z.c18'] or names(repo.local_models) != ['a.c18', 'z.c18']:
+            problems.append('after the repair: all_models=%s local_models=%s' % (names(repo.all_models), names(repo.local_models)))
+        else:
+            a = repo.all_models[os.path.join(tmp, 'a.c18')]
+            z = repo.all_models[os.path.join(tmp, 'z.c18')]
+            if a.items[0].ref is not z.items[0] or repo.local_models[os.path.join(tmp, 'z.c18')] is not z:
+                problems.append('after the repair the reference of a.c18 does not point into the model of z.c18 the repository holds')
+        return problems
+    finally:
+        shutil.rmtree(tmp, ignore_errors=True)
+        import textx.registration as REG2
+        REG2.clear_language_registrations()
+
+
 def explore(item):
     pi, = item
     ctx = Ctx(10000, max_paths=5000, free_selectors=True)
@@ -391,6 +459,16 @@ def main():
                 chk.violation('%s in lib/b.m (string main model, GlobalRepo provider): %s' % (KINDS[ki], pr),
                               {'string_main': ki})
         paths += 1
+    for ki in range(len(KINDS)):
+        for gr in (False, True):
+            for pr in caller_repository_scenario(ki, gr)[:1]:
+                if pr.startswith('harness'):
+                    chk.harness_error(pr)
+                else:
+                    chk.violation("%s in z.c18 (caller-owned repository, global repository %s): %s" % (KINDS[ki], gr, pr),
+                                  {'caller_repository': [ki, gr]})
+            paths += 1
+    chk.cov['bounds']['caller_repository'] = 'GlobalRepo.load_models_in_model_repo(global_model_repo=repo), 3 failure kinds, global repository on/off'
     chk.cov['bounds']['string_main'] = 'main model from a string, PlainNameGlobalRepo pattern, global repository (3 failure kinds)'
     if ok == 0:
         chk.harness_error('vacuous: no scenario passed')
@@ -402,6 +480,9 @@ def main():
 
 
 def replay(data):
+    if 'caller_repository' in data:
+        pr = caller_repository_scenario(*data['caller_repository'])
+        return bool(pr), pr
     if 'string_main' in data:
         pr = string_main_scenario(data['string_main'])
         return bool(pr), pr
